@@ -80,14 +80,15 @@ func sxData(e sxEvent) []byte {
 	switch e.Name {
 	case string(sif.EventSigningStart):
 		r := requests.SigningBatchProposalStartRequest{BatchID: e.Batch, ParticipantId: e.Pid, CreatedAt: ts,
-			SigningTasks: []requests.SigningTask{{MessageID: "m-" + e.Batch, Payload: []byte("payload " + e.Batch)}}}
+			// both batches use the same message id (as two proposals of the same baked range do): only the batch id tells them apart
+			SigningTasks: []requests.SigningTask{{MessageID: "m-shared", Payload: []byte("payload " + e.Batch)}}}
 		if e.Var == "empty" {
 			r.SigningTasks = nil
 		}
 		v = r
 	case string(sif.EventSigningPartialSignReceived):
 		r := requests.SigningProposalBatchPartialSignRequests{BatchID: e.Batch, ParticipantId: e.Pid, CreatedAt: ts,
-			PartialSigns: []requests.PartialSign{{MessageID: "m-" + e.Batch, Sign: []byte(fmt.Sprintf("sig-%d-%s", e.Pid, e.Batch))}}}
+			PartialSigns: []requests.PartialSign{{MessageID: "m-shared", Sign: []byte(fmt.Sprintf("sig-%d-%s", e.Pid, e.Batch))}}}
 		if e.Var == "empty" {
 			r.PartialSigns = nil
 		}
